@@ -12,8 +12,9 @@
 
    PARTIAL with respect to the property text: the text quantifies over executions of the Go
    program, for which there is no formal semantics here.  Goroutine scheduling, pointer values and
-   floating point are excluded by enumeration (theorem C14_no_sched_ptr_float_sites_partial:
-   there is no such construct in consensus-zone files), not by a semantic theorem; wall-clock time
+   floating point and process-local mutable state (package-level variables that can change after
+   init) are excluded by enumeration (theorem C14_no_sched_ptr_float_sites_partial: there is no
+   such construct in consensus-zone files), not by a semantic theorem; wall-clock time
    and randomness by enumeration plus review (three telemetry timers, one explicitly seeded PCG).
    The Cosmos SDK, ibc-go and CometBFT code underneath is covered only by the N-process run. *)
 From Coq Require Import ZArith List Bool Permutation String.
